@@ -54,6 +54,10 @@ pub trait Property: Sync {
     }
     fn rule(&self) -> String;
     fn components(&self) -> Value;
+    /// Additional machinery-level evidence gathered once per check run (e.g. stub conformance for C18).
+    fn extra_evidence(&self, _ws: &Ws, _exec: &Executor, _opts: &Opts) -> Result<Option<(String, Value)>, String> {
+        Ok(None)
+    }
 }
 
 /// What a trace contributes to the evidence: interleaving signature, faults that actually fired, blocking events.
@@ -577,9 +581,10 @@ pub fn run(ws: &Ws, prop: &dyn Property, opts: &Opts) -> Result<i32, String> {
     let known = crate::findings::load(&ws.verif)?;
     let unknown = crate::findings::report(prop.id(), &found, &known);
 
+    let extra = prop.extra_evidence(ws, &exec, opts)?;
     let wall = start.elapsed().as_secs_f64();
     let zero_probes: Vec<String> = Vec::new();
-    let coverage = json!({
+    let mut coverage = json!({
         "evaluations": agg.runs,
         "cases": agg.cases,
         "distinct_nontrivial": agg.nontrivial_sigs.len(),
@@ -602,6 +607,9 @@ pub fn run(ws: &Ws, prop: &dyn Property, opts: &Opts) -> Result<i32, String> {
         "violations_not_in_known_findings": unknown,
         "workers": opts.workers,
     });
+    if let Some((k, v)) = extra {
+        coverage[k] = v;
+    }
     Evidence {
         property_id: prop.id().to_owned(),
         tier: opts.tier.clone(),
